@@ -469,7 +469,8 @@ func (p c10) structCase(c *fw.Case) {
 		func(u *url.URL) (*jsonschema.Schema, error) { return s, nil },      // the root itself
 		func(u *url.URL) (*jsonschema.Schema, error) { c := other; return &c, nil },
 	}
-	opts := &jsonschema.ResolveOptions{Loader: loaders[r.IntN(len(loaders))], ValidateDefaults: r.IntN(2) == 0}
+	loaderIdx := r.IntN(len(loaders))
+	opts := &jsonschema.ResolveOptions{Loader: loaders[loaderIdx], ValidateDefaults: r.IntN(2) == 0}
 	if r.IntN(2) == 0 {
 		opts.BaseURI = gen.Pick(r, []string{"http://h/root.json", "urn:x:y", "%zz", "relative", "http://h/root.json#f", "file:///a/b"})
 	}
@@ -506,7 +507,15 @@ func (p c10) structCase(c *fw.Case) {
 		}
 		c.Eval(1)
 		if err == nil && merr == nil {
-			p.exercise(c, rs, string(data), hasAnyRef(s, map[*jsonschema.Schema]bool{}), s.Schema == gen.Schema7URI || s.Schema == gen.Schema7URIs, "struct")
+			hasRefs := hasAnyRef(s, map[*jsonschema.Schema]bool{})
+			// With references AND a loader that answers, a reference may leave the document (a relative BaseURI even turns
+			// "#" into a remote URI) and come back through a loader document that refers to itself in place: outside the
+			// proviso, and invisible to the single-document model used as guard. Decide only when no loader can answer.
+			if hasRefs && useOpts != nil && loaderIdx >= 2 {
+				c.Count("not_decided_refs_with_answering_hostile_loader", 1)
+			} else {
+				p.exercise(c, rs, string(data), hasRefs, s.Schema == gen.Schema7URI || s.Schema == gen.Schema7URIs, "struct")
+			}
 		}
 	}
 	if c.Idx%6000 == 4 {
